@@ -854,3 +854,46 @@ Proof. split; [exact pad_pipeline_ctx|exact pad_pipeline_noctx]. Qed.
 Lemma pad_scalar_as_default :
   forall d z col out, pad_col (FScalar d z :: col) = Some out -> collate_col (FScalar d z :: col) = Some out.
 Proof. intros d z col out H. exact H. Qed.
+
+(* ---------------------------------------------------------------------- *)
+(* entry points around shared member objects *)
+Lemma ep_build_pure : forall h k c ids, ep_build_gen false h k c ids = (h, ep_of k c ids).
+Proof. intros h k c ids. unfold ep_build_gen. destruct k; try reflexivity. destruct ids as [|i [|j r]]; reflexivity. Qed.
+
+Lemma run_hist_fresh : forall ops h eps, run_hist h eps ops = (h, calls_fresh h eps ops).
+Proof.
+  unfold run_hist. induction ops as [|o r IH]; intros h eps; simpl; [reflexivity|].
+  destruct o as [k c ids | j b].
+  - rewrite ep_build_pure. apply IH.
+  - rewrite IH. reflexivity.
+Qed.
+
+Lemma run_hist_heap : forall ops h eps, fst (run_hist h eps ops) = h.
+Proof. intros. rewrite run_hist_fresh. reflexivity. Qed.
+
+Lemma ep_call_own_cfg : forall h e b,
+  ep_kind e <> EKSingle ->
+  ep_call h e b = match ep_kind e, ep_ids e with
+                  | EKCompose, _ :: _ | EKWrapper, [_] => run_cfg (ep_cfg e) (map (impl_at h) (ep_ids e)) b
+                  | _, _ => fail_out
+                  end.
+Proof.
+  intros h e b H. unfold ep_call, ep_call_gen. destruct (ep_kind e).
+  - destruct (ep_ids e); reflexivity.
+  - destruct (ep_ids e) as [|i l]; [reflexivity|]. destruct l; reflexivity.
+  - congruence.
+Qed.
+
+(* whatever else was built / called in between (ops1, ops2): calling the entry point built by `HBuild k c ids`
+   gives what that entry point gives on the untouched heap *)
+Lemma calls_fresh_app : forall ops1 h eps ops2,
+  calls_fresh h eps (ops1 ++ ops2) =
+  calls_fresh h eps ops1 ++
+  calls_fresh h (eps ++ flat_map (fun o => match o with HBuild k c ids => [ep_of k c ids] | _ => [] end) ops1) ops2.
+Proof.
+  induction ops1 as [|o r IH]; intros h eps ops2; simpl.
+  - rewrite app_nil_r. reflexivity.
+  - destruct o as [k c ids | j b]; simpl.
+    + rewrite IH. rewrite <- app_assoc. reflexivity.
+    + rewrite IH. reflexivity.
+Qed.
